@@ -330,7 +330,16 @@ func verifProjection(st *state.State, name string) map[string]interface{} {
 		blocked = append(blocked, r.N)
 	}
 	sort.Ints(blocked)
+	// the marks that decide which kept revisions later reverts leave unblocked
+	var notBlockedMarks []int
+	for r, rs := range snapst.RevertStatus {
+		if rs == snapstate.NotBlocked && snapst.LastIndex(snap.R(r)) >= 0 {
+			notBlockedMarks = append(notBlockedMarks, r)
+		}
+	}
+	sort.Ints(notBlockedMarks)
 	return map[string]interface{}{
+		"not-blocked-marks": notBlockedMarks,
 		"installed": true, "current": snapst.Current.N, "kept": verifSeqRevs(&snapst), "active": snapst.Active, "channel": snapst.TrackingChannel,
 		"devmode": snapst.DevMode, "jailmode": snapst.JailMode, "classic": snapst.Classic, "ignore-validation": snapst.IgnoreValidation,
 		"cohort": snapst.CohortKey, "last-refresh": snapst.LastRefreshTime, "blocked": blocked, "config": cfg,
@@ -690,6 +699,9 @@ func verifBodyHistory(s *verifEngC, gc *check.C) {
 					delete(ap, "kept")
 					delete(bp, "blocked")
 					delete(ap, "blocked")
+					// (the marks of the lost revisions went with them)
+					delete(bp, "not-blocked-marks")
+					delete(ap, "not-blocked-marks")
 					subseq := true
 					j := 0
 					for _, r := range aseq {
@@ -724,7 +736,7 @@ func verifBodyHistory(s *verifEngC, gc *check.C) {
 
 		// ---- restarts while the failed operation was being undone
 		if crashes && failed && len(c.Violations) == 0 && (kind == "install" || kind == "refresh" || kind == "revert") && verifJSON(afterProj) == verifJSON(beforeProj) {
-			s.crashSweepAfterFailedOp(desc, verifSnapName, initial, beforeProj, s.checkpoints)
+			s.crashSweepAfterFailedOp(desc, verifSnapName, chg.ID(), initial, beforeProj, s.checkpoints)
 		}
 
 		// ---- C11
